@@ -12,7 +12,7 @@ SHARD = 150
 TRACKS = ["_", "x", "y", 0, 1, "A", "01", "x01", "x1", 10, "9"]     # digit runs: 1 / '01', 10 / '9' must sort as strings
 RULE = ("(annotation a, annotation b = a rebuilt in shuffled insertion order with at most one perturbation: a segment "
         "bound, a track name, a label, an extra or a missing track; different uri/modality): observed a==b, a!=b, "
-        "copy/from_records/from_df/timeline round trips, timeline ==/!=, to_rttm / to_lab / to_uem (also through "
+        "copy/from_records/from_df/timeline round trips (also with a caller's name iterator one name short), timelines merged in place from overlapping parts, timeline ==/!=, to_rttm / to_lab / to_uem (also through "
         "write_*), str(segment); times shifted to negative values in a third of the cases and beyond one day (either sign) in 8%; uris and labels with spaces "
         "in 15%; regimes K0 (1/1024 s grid, exercises .3f rounding ties), K4, K1 and P3 (set_precision(3), decimal millisecond values); non-trivial = at least two records")
 
